@@ -43,9 +43,11 @@ Section Denote.
         | KFloat, SInt z => Some (SFloat (f32 (i2f z)))
         | KEnum, SEnum O n => Some (SEnum 0 n)
         | KEnum, SInt z => if (z =? 0) || (z =? 1) || (z =? 5) then Some (SEnum 0 z) else None
-        | KEnum, SStr [65] => Some (SEnum 0 0)
-        | KEnum, SStr [66] => Some (SEnum 0 1)
-        | KEnum, SStr [67] => Some (SEnum 0 5)
+        | KEnum, SStr s =>
+            if bytes_eqb s [65] then Some (SEnum 0 0)          (* "A" *)
+            else if bytes_eqb s [66] then Some (SEnum 0 1)     (* "B" *)
+            else if bytes_eqb s [67] then Some (SEnum 0 5)     (* "C" *)
+            else None
         | _, _ => None
         end
     end.
@@ -84,7 +86,7 @@ Section Denote.
     match a, b with CL x, CL y => svals_eqb x y | CM x, CM y => pairs_eqb x y | _, _ => false end.
 
   (* the content the field must have after a successful store; None: must be rejected.
-     k is the kind of the value position (for PMapKey: the map's value kind is int64). *)
+     k is the kind of the value position (of the map's values for the map positions). *)
   Definition expected (k : kind) (pos : position) (before : content) (val : sval) : option content :=
     match pos, before with
     | PSingular, _ | PCtor, _ =>
@@ -95,9 +97,12 @@ Section Denote.
     | PAppend, CL l => option_map (fun x => CL (l ++ [x])) (denote k val)
     | PSetIndex i, CL l => option_map (fun x => CL (set_nth i x l)) (denote k val)
     | PAssign others, _ => option_map CL (denote_all k (others ++ [val]))
-    | PMapValue key, CM m => option_map (fun x => CM (map_put key x m)) (denote k val)
-    | PMapAssign key, _ => option_map (fun x => CM [(key, x)]) (denote k val)
-    | PMapKey kk v, CM m => option_map (fun x => CM (map_put x v m)) (denote kk val)
+    | PMapValue key, CM m =>
+        match denote KString key, denote k val with Some kx, Some x => Some (CM (map_put kx x m)) | _, _ => None end
+    | PMapAssign key, _ =>
+        match denote KString key, denote k val with Some kx, Some x => Some (CM [(kx, x)]) | _, _ => None end
+    | PMapKey kk v, CM m =>
+        match denote kk val, denote k v with Some kx, Some x => Some (CM (map_put kx x m)) | _, _ => None end
     | _, _ => None
     end.
 
